@@ -267,3 +267,7 @@ def run(ctx):
                       found='P: q[c] := %s ; Q: x[c] := %s' % (show(fv, maxdepth=5), show(iv, maxdepth=5)),
                       detail='P(Q(x))[c] = x[c]')
     ctx.floor('R16.1 sibling pairs', len(fw) * len(inv), 8)
+    # "nesting with tool/base": the round trip through a stack holds only if Tool / Base / Frame delegate and compose correctly
+    # (C09) - its clauses are re-checked here
+    from . import C09
+    C09.run(ctx)
